@@ -7,7 +7,7 @@
    PARTIAL: the constructors of stochastic objects and molecules are not modelled; their rejection rules and
    termination are checked on the malformed stream (breaking operators, byte-level mutations, 2 s limit). *)
 From Coq Require Import List ZArith QArith Ascii String Bool.
-From GBS Require Import Model.PyStr Model.Num Model.Bond Model.Token Model.SysSplit Model.DistFam Src.SrcDist Proofs.TotalP Proofs.DistP Model.Stoch Proofs.StochP Model.Mol Proofs.MolP Model.SystemM Proofs.SystemP Src.SrcStoch.
+From GBS Require Import Model.PyStr Model.Num Model.Bond Model.Token Model.SysSplit Model.DistFam Src.SrcDist Proofs.TotalP Proofs.DistP Model.Stoch Proofs.StochP Model.Mol Proofs.MolP Model.SystemM Proofs.SystemP Src.SrcStoch Src.SrcGenerable Proofs.GenerableSrcP.
 Import ListNotations.
 Open Scope Z_scope.
 
@@ -93,6 +93,15 @@ Proof.
   destruct (d_trans d) as [l|] eqn:Et; [|discriminate]. rewrite (L d l Hin Et), Nat.eqb_refl in Hd. discriminate.
 Qed.
 Print Assumptions C15_accepted_objects_pass_the_source_validate.
+
+(* tie T: the generable chain (BondDescriptor.generable -> SmilesToken.generable -> Stochastic.generable) written over the decision
+   expressions REGENERATED from bond.py / token.py / stochastic.py (statement skeletons checked) is the model's: a negative weight on ANY
+   descriptor of a token makes the token, and every object that contains it, not generable *)
+Theorem C15_generable_chain_is_source : forall (d : descr) (t : token) (s : pstoch),
+  descr_generable_src d = generable_descr d /\ token_generable_src (k_bds t) = token_generable t /\
+  stoch_generable_src (map generable_descr (ps_bds s)) (map token_generable (ps_rep s ++ ps_end s)) (ps_dist s) true true = stoch_generable s.
+Proof. intros d t s. split; [apply descr_generable_is_source|]. split; [apply token_generable_is_source|apply stoch_generable_is_source]. Qed.
+Print Assumptions C15_generable_chain_is_source.
 
 Example C15_example :
   (exists m, parse_token (fun _ => true) (lit "C[$]C") 0 = Err ERuntime m) /\
